@@ -81,3 +81,61 @@ func (s *Set) Match(v oracle.V, h *sc.History, x *oracle.Idx) string {
 	}
 	return ""
 }
+
+func init() {
+	// Two start/restart requests on one process whose call intervals overlap each launch an instance.
+	Lifecycle["C08-concurrent-start"] = func(v oracle.V, h *sc.History, x *oracle.Idx) bool {
+		if v.Kind != "two-live-instances" {
+			return false
+		}
+		for _, a := range h.Calls {
+			if a.Op != sc.OpStart && a.Op != sc.OpRestart {
+				continue
+			}
+			for _, b := range h.Calls {
+				if b.ID <= a.ID || b.Proc != a.Proc || (b.Op != sc.OpStart && b.Op != sc.OpRestart) {
+					continue
+				}
+				aRet := a.SeqRet
+				if aRet < 0 {
+					aRet = 1 << 30
+				}
+				if b.SeqCall < aRet && len(v.Msg) > len(a.Proc) && v.Msg[:len(a.Proc)+1] == a.Proc+":" {
+					return true
+				}
+			}
+		}
+		return false
+	}
+}
+
+func init() {
+	// A restart request on a process that is still waiting for its dependencies leaves two
+	// instances sharing one status record; the stopped one may later overwrite the live one's status.
+	m := func(v oracle.V, h *sc.History, x *oracle.Idx) bool {
+		for _, a := range h.Applied {
+			if a.Step.Op != sc.OpRestart || !a.Applicable {
+				continue
+			}
+			p := a.Step.Proc
+			if len(v.Msg) <= len(p) || v.Msg[:len(p)] != p || (v.Msg[len(p)] != ' ' && v.Msg[len(p)] != ':') {
+				continue
+			}
+			st := x.LastStateBefore(p, a.SeqBefore)
+			if st != "" && st != "Pending" && st != "Terminating" {
+				continue
+			}
+			live := false
+			for _, in := range x.Insts[p] {
+				if in.Launch < a.SeqBefore && (in.Exit < 0 || in.Exit > a.SeqBefore) {
+					live = true
+				}
+			}
+			if !live {
+				return true
+			}
+		}
+		return false
+	}
+	Lifecycle["C09-restart-while-pending"] = m
+}
